@@ -46,6 +46,12 @@ func judgeSpell(c *Ctx, k spellCase) {
 		if err != nil || hexs(b) != k.KeyHex {
 			r.Violate("C07|DecodeSecret|valid-spelling|"+k.Class, "DecodeSecret does not return the encoded bytes for an accepted spelling ("+k.Class+")", "spell", k, k.KeyHex, fmt.Sprintf("%x err=%v", b, err))
 		}
+	} else if k.Class == "wrapped-in-unicode-white-space" {
+		// whether white space beyond space / tab / newline counts as "surrounded by white space" is not stated: the text is
+		// refused, or decoded to exactly the bytes - never to anything else
+		if err == nil && hexs(b) != k.KeyHex {
+			r.Violate("C07|DecodeSecret|valid-spelling|"+k.Class, "a text wrapped in Unicode white space is accepted but decoded to other bytes", "spell", k, k.KeyHex+" or an error", fmt.Sprintf("%x", b))
+		}
 	} else if err == nil {
 		r.Violate("C07|DecodeSecret|invalid-accepted|"+k.Class, "DecodeSecret accepts invalid text ("+k.Class+")", "spell", k, "an error", fmt.Sprintf("bytes %x", b))
 	}
@@ -435,6 +441,15 @@ func init() {
 			insertedOutsiders(rng, []int{2, 5, 10, 1, 3, 4, 20}[:c.N(3, 7)], func(text, class string) {
 				cases = append(cases, spellCase{Text: text, Class: class})
 			})
+			for _, n := range []int{1, 5, 10, 20, 33} {
+				key := rng.Bytes(n)
+				for _, ws := range []string{"\u00a0", "\u0085", "\u2028", "\u3000", "\v", "\f", "\u2003", "\u1680", "\ufeff", "\u200b"} {
+					for _, enc := range []string{ref.Base32Encode(key), strings.ToLower(ref.Base32EncodeNoPad(key))} {
+						cases = append(cases, spellCase{KeyHex: hexs(key), Text: ws + enc, Class: "wrapped-in-unicode-white-space"},
+							spellCase{KeyHex: hexs(key), Text: enc + ws, Class: "wrapped-in-unicode-white-space"}, spellCase{KeyHex: hexs(key), Text: ws + enc + ws + " ", Class: "wrapped-in-unicode-white-space"})
+					}
+				}
+			}
 			otherEncodings(rng, []int{1, 2, 3, 4, 5, 10, 16, 20, 32, 33}, func(text, class string) {
 				cases = append(cases, spellCase{Text: text, Class: class})
 			})
